@@ -153,7 +153,7 @@ Definition guardb (a : action) (s : state) : bool :=
       existsb (fun r => (fst (fst r) =? t) && (snd (fst r) =? l)) (elected s) &&
       existsb (fun r => (fst (fst r) <=? t) && (length K <=? snd (fst r))%nat &&
                         log_eqb K (firstn (length K) (snd r))) (cmts s) &&
-      (commit x <=? c)%nat && (c <=? Nat.max (commit x) (length K))%nat
+      (c <=? Nat.max (commit x) (length K))%nat
   | ARecvCut f m k =>
       inb areq_eq_dec m (appends s) && recvb f (trunc_req m k) (do_trunc m k s)
   end.
@@ -219,10 +219,10 @@ Proof.
       * right. apply match_geb_ok; assumption.
   - apply SFlush. apply Nat.leb_le in H, H0. lia.
   - apply SCrash. apply Nat.leb_le; assumption.
-  - apply existsb_exists in H3. destruct H3 as [[[t' l'] L0] [He H3]]. simpl in H3.
-    apply andb_true_iff in H3. destruct H3 as [E1 E2].
+  - apply existsb_exists in H2. destruct H2 as [[[t' l'] L0] [He H2]]. simpl in H2.
+    apply andb_true_iff in H2. destruct H2 as [E1 E2].
     apply N.eqb_eq in E1, E2. subst t' l'.
-    apply existsb_exists in H2. destruct H2 as [[[tc k] M] [Hc H2]]. simpl in H2.
+    apply existsb_exists in H1. destruct H1 as [[[tc k] M] [Hc H1]]. simpl in H1.
     splitb.
     repeat match goal with
     | H : negb _ = true |- _ => apply negb_true_iff in H
